@@ -2,6 +2,7 @@
 from __future__ import annotations
 
 import itertools
+import zlib
 
 import jax
 import jax.numpy as jnp
@@ -27,7 +28,7 @@ EXPLANATION = ('Every concrete operator class found by walking the subclasses of
 FUNCTIONS = ['AbstractLinearOperator.__init_subclass__/_monkey_patch_operator', 'diagonal/symmetric/orthogonal/square/lower_triangular/upper_triangular/positive_semidefinite/negative_semidefinite',
              'IdentityOperator', 'HomothetyOperator', 'DiagonalOperator', 'DiagonalInverseOperator', 'HWPOperator', 'SymmetricBandToeplitzOperator', 'QURotationOperator',
              'QURotationTransposeOperator', 'ToastObservationMatrixOperator']
-BOUNDS = {'quick': 'every catalogue leaf of 4 families + leaf.T + leaf.I (closed forms) + 40 composites; all 7 lineax tags + orthogonal + square', 'thorough': 'same + up to 3 000 composites per family'}
+BOUNDS = {'quick': 'every catalogue leaf of 4 families + leaf.T + leaf.I (closed forms) + 40 composites; all 7 lineax tags + orthogonal + square; every strict-diagonal specification of the C11 family that the constructor accepts (a third of the single-leaf ones in the quick tier)', 'thorough': 'same + up to 3 000 composites per family'}
 STUBS = []
 ASSUMPTIONS = ['real arithmetic', 'a class without a catalogue instance is reported as uncovered in the evidence, not as passing']
 RULE = 'case = operator expression; non-trivial = at least one tag/decorator is True for it; distinct keys'
@@ -58,6 +59,13 @@ def cases(tier, seed):
                 out.append(('op', fam, ('comp', (('leaf', a, 0), ('leaf', b, 1), ('leaf', a, 2)))))
             out.append(('op', fam, ('kmul', ('leaf', a, 0), 0)))
             out.append(('op', fam, ('diag', 'list', (('leaf', a, 0), ('leaf', a, 1)))))
+    # every specification the STRICT diagonal constructor accepts yields an operator tagged diagonal/symmetric/square: the tags
+    # must hold for whatever is accepted (the refusals are what keeps them true)
+    from . import c11
+    specs = [k for k in c11.cases(tier, seed) if k[0] == 'diag' and k[4]]
+    for k in specs:
+        if len(k[1]) > 1 or tier == 'thorough' or zlib.crc32(repr(k).encode()) % 3 == 0:
+            out.append(('spec', k))
     return out
 
 
@@ -134,6 +142,8 @@ def run_case(key, twin=False):
         return _classes()
     if key[0] == 'toast':
         return _toast()
+    if key[0] == 'spec':
+        return _spec(key[1])
     _, fam, e = key
     bld = Builder(fam)
     try:
@@ -185,6 +195,53 @@ def run_case(key, twin=False):
     n, r = bad[0]
     return violation(f'{type(op0).__name__} ({show(e)}) carries tag {active} but "{n}" fails for some parameter values', model=(r.model if r is not None else {}),
                      signature=f'c08-{n}:{type(op0).__name__}', kind=n, twin=twin, obligations=nob, tags=active, **common)
+
+
+def _spec_build(k, v):
+    from . import c11
+    _, shapes, vs, ax, strict = k
+    return c11._cls(strict)(v, axis_destination=ax, in_structure=c11._ins(shapes))
+
+
+def _spec(k):
+    k = _tuplify(k)
+    vs = k[2]
+    try:
+        op0 = _spec_build(k, jnp.ones(vs))
+        xin = op0.in_structure()
+        real_out = jax.eval_shape(op0.mv, xin)
+    except Exception:  # noqa: BLE001
+        return ok(obligations=0, nontrivial=False, tag_queries=0, sample=None)    # refused (or not applicable): no tag is claimed
+    tags = _tags(op0)
+    active = [t for t, v in tags.items() if v]
+    if not active:
+        return ok(obligations=0, nontrivial=False, tag_queries=len(tags), sample=None)
+    if (tags['square'] or tags['is_symmetric'] or tags['is_diagonal']) and not structs_equal(real_out, xin):
+        return violation(f'{type(op0).__name__}(values{vs}, axis_destination={k[3]}) on {k[1]} is accepted and tagged {active} but maps {describe_struct(xin)} to {describe_struct(real_out)}',
+                         signature=f'c08-spec-square:{type(op0).__name__}', kind='square')
+    if op0.in_size() > 14:
+        return skipped('larger than the bound')
+    ctx = E.Ctx()
+    dec = Decider()
+    x = E.symbols('x', xin)
+    mvx, _, _ = E.run(ctx, lambda v, x: _spec_build(k, v).mv(x), [('v', S(*vs), 'sym'), ('x', xin, 'sym')])
+    try:
+        W = linear_matrix(E.flat_elems(mvx, ctx), E.flat_elems(x))
+    except ValueError:
+        return inconclusive('mv is not a linear form in x (C04)')
+    res = _check_matrix(tags, W, op0, ctx, dec, [], x, op0.in_size())
+    if tags['is_symmetric'] and op0.T is not op0:
+        return violation(f'{type(op0).__name__} is tagged symmetric but A.T is not A', signature=f'c08-T-is-A:{type(op0).__name__}', kind='T-is-A')
+    common = dict(prims=sorted(ctx.prims), **dec.stats())
+    nob = common.pop('obligations')
+    bad = [(n, r) for n, r in res if r is None or r.status != 'unsat']
+    if not bad:
+        return ok(obligations=nob, nontrivial=True, sample=dict(operator=f'{type(op0).__name__}{k[1:]}', tags=active, verdict='unsat'), **common)
+    if any(r is not None and r.status == 'unknown' for _, r in bad):
+        return inconclusive('solver unknown: ' + bad[0][0], obligations=nob, **common)
+    n, r = bad[0]
+    return violation(f'{type(op0).__name__}{k[1:]} carries tag {active} but "{n}" fails for some values', model=(r.model if r is not None else {}),
+                     signature=f'c08-spec-{n}:{type(op0).__name__}', kind=n, obligations=nob, tags=active, **common)
 
 
 def _toast():
@@ -250,9 +307,12 @@ def replay(key, model, info):
     if key[0] in ('toast', 'classes') or kind in ('square', 'T-is-A'):
         r = run_case(key)
         return r['status'] == 'violation', r.get('what', 'ok')
-    _, fam, e = key
-    params = params_from_model(fam, e, model)
-    op = Builder(fam).build(e, params)
+    if key[0] == 'spec':
+        op = _spec_build(key[1], model_tree(model, 'v', S(*key[1][2])))
+    else:
+        _, fam, e = key
+        params = params_from_model(fam, e, model)
+        op = Builder(fam).build(e, params)
     from furax._base.core import AbstractLinearOperator
     M = np.asarray(AbstractLinearOperator.as_matrix(op))
     x = np.concatenate([np.asarray(l).ravel() for l in jax.tree.leaves(model_tree(model, 'x', op.in_structure()))])
